@@ -118,7 +118,7 @@ theorem pre_old_c14 {a : A} {s : State} (inv : Inv cfg a s) (r : Round) (eAcc : 
     rw [← this]; exact p
 
 /-- **One round adds no C14 entry.** -/
-theorem round_c14g {a : A} {s : State} (inv : Inv cfg a s) (r : Round) (hwf : RoundWF r) (evs : List Ev)
+theorem round_c14 {a : A} {s : State} (inv : Inv cfg a s) (r : Round) (hwf : RoundWF r) (evs : List Ev)
     (he : (step cfg s r).out = s.out ++ evs) (hn : NoErr "C14" a) : NoErr "C14" (Spec.round cfg a r evs) := by
   have hord : OrdOK cfg := ordOK_of_perm hperm
   have hall : OrdAll cfg := OrdAll_of_perm hperm
@@ -295,6 +295,20 @@ theorem round_c14g {a : A} {s : State} (inv : Inv cfg a s) (r : Round) (hwf : Ro
       inv0 hwf' (by omega) q (Or.inr rfl) hE hn0
     rw [hsplit, hp1, List.append_nil, preSt_ne a r hp2, preU_ne a r hp2, goStartU_none]
     exact this
+
+/-- the rounds of a history, one after the other -/
+theorem rounds_c14 : ∀ (rs : List Round) (a : A) (s : State), Inv cfg a s → RoundsWF rs → NoErr "C14" a →
+    NoErr "C14" ((List.zip rs (modelRounds cfg s rs)).foldl (fun a p => Spec.round cfg a p.1 p.2) a)
+  | [], _, _, _, _, hn => hn
+  | r :: rs, a, s, inv, hwf, hn => by
+    have hr : RoundWF r := hwf r (by simp)
+    obtain ⟨evs, hevs⟩ := step_out ok hfuel inv r hr
+    have hre : roundEvents cfg s r = evs := by
+      unfold roundEvents; rw [hevs, List.drop_left]
+    obtain ⟨inv1, _⟩ := round_ok ok hfuel hperm hmt inv r hr evs hevs
+    have h1 := round_c14 ok hfuel hperm hmt inv r hr evs hevs hn
+    simp only [modelRounds, List.zip_cons_cons, List.foldl_cons, hre]
+    exact rounds_c14 rs (Spec.round cfg a r evs) (step cfg s r) inv1 (fun x hx => hwf x (by simp [hx])) h1
 
 end pre
 
